@@ -264,8 +264,12 @@ pub struct JoinHandle<T> { _p: core::marker::PhantomData<T> }
 pub struct IntoIter<T> { _p: core::marker::PhantomData<T> }
 impl<T> IntoIter<T> { pub uninterp spec fn view(&self) -> Seq<T>; }
 impl JoinHandle<io::Result<IntoIter<SocketAddr>>> {
+    /// PROPHECY name: what the next poll of the blocking lookup task answers — pending, the resolver's answer
+    /// (`Ok(Ok(addrs))`), the resolver's failure (`Ok(Err(e))`), or the failure of the task itself (`Err(join error)`)
+    pub uninterp spec fn next_poll(&self) -> Poll<Result<io::Result<IntoIter<SocketAddr>>, JoinError>>;
     #[verifier::external_body]
     pub fn poll(&mut self, cx: &mut Context<'_>) -> (r: Poll<Result<io::Result<IntoIter<SocketAddr>>, JoinError>>)
+        ensures r == old(self).next_poll(),
     { unimplemented!() }
 }
 #[verifier::external_body]
@@ -341,6 +345,14 @@ impl<R: Host> ResolverFut<R> {
         // DNS lookup: an empty answer is NoRecords, an answer is stored in order, a failure is Resolver / Io  [C19]
         *old(self) is LookUp ==> (r matches Poll::Ready(Ok(c)) ==> !(c.addr is None)),
         *old(self) is LookUp ==> (r matches Poll::Ready(Err(e)) ==> e is NoRecords || e is Resolver || e is Io),
+        // WHICH error: a failure reported by the resolver is `Resolver`; only the failure of the lookup TASK is `Io`; an
+        // answer without addresses is `NoRecords`   [C19]
+        *old(self) matches ResolverFut::LookUp(f, _) ==> (match f.next_poll() {
+            Poll::Pending => r is Pending,
+            Poll::Ready(Ok(Err(_))) => r matches Poll::Ready(Err(e)) && e is Resolver,
+            Poll::Ready(Err(_)) => r matches Poll::Ready(Err(e)) && e is Io,
+            Poll::Ready(Ok(Ok(_))) => r matches Poll::Ready(Ok(_)) || (r matches Poll::Ready(Err(e)) && e is NoRecords),
+        }),
 //@end
 }
 
